@@ -1,4 +1,32 @@
-import ErgoModel.Exec
+/-
+  C13 — Readers never fail or see garbage while writers are active.
+  Model: ErgoModel/Proc.lean — readers take no lock: they open the file the log name points to and read it; writers append a
+  batch with one write(2) or switch the name to a complete new file (rename).  Assumption (trusted base): a concurrent
+  reader sees a single write(2) entirely or not at all.
+-/
+import ErgoProofs.Lemmas.ConcReach
+import ErgoProofs.Lemmas.StorageThm
 namespace Ergo
-theorem C13_placeholder : True := trivial
+open Proc
+
+/-- whenever a reader finishes, what it read is the log after some whole number of committed sections — a state the store
+    actually passed through; never a mixture of an old and a new file, never an empty store that was not there -/
+theorem C13_reader_sees_a_past_state {log0 : List Event} {ws : List (List Event → Except CmdErr Write)} {nr : Nat} {s : Sys}
+    (h : Reachable (Sys.init log0 ws nr) s) (r : Nat) (seen : List Event)
+    (hr : s.readers[r]? = some (.done seen)) : ∃ k, k ≤ s.commits.length ∧ seen = logAfter log0 s.commits k :=
+  reader_sees_history h r seen hr
+
+/-- the ghost history is exactly the sequence of log values -/
+theorem C13_history_is_the_sequence_of_logs {log0 : List Event} {ws : List (List Event → Except CmdErr Write)} {nr : Nat} {s : Sys}
+    (h : Reachable (Sys.init log0 ws nr) s) :
+    s.history.length = s.commits.length + 1 ∧ ∀ k, k ≤ s.commits.length → s.history[k]? = some (logAfter log0 s.commits k) :=
+  history_is_logs h
+
+/-- byte level: a reader that catches a writer killed inside its write sees everything from before plus whole lines only -/
+theorem C13_torn_tail_is_dropped {classify : Storage.Bytes → Storage.LineClass} {encode : Event → Storage.Bytes} {limit : Nat}
+    (hc : Storage.Codec classify encode) (f : Storage.Bytes) (es evs : List Event) (k : Nat)
+    (hr : Storage.readEvents classify limit f = .ok es) (hs : Storage.Short encode limit evs) :
+    ∃ n, n ≤ evs.length ∧ Storage.readEvents classify limit (Storage.appendTorn classify encode f evs k) = .ok (es ++ evs.take n) :=
+  Storage.appendTorn_reads hc f es evs k hr hs
+
 end Ergo
